@@ -5,7 +5,9 @@
        section::= column* | group+ ;   a section holds columns only or groups only
        group  ::= column*
        column ::= leaf* ;   with or without padding (gutter table)
-       leaf   ::= text | divider | spacer | image | image-with-link | button | button-with-link
+       leaf   ::= text | divider | spacer | image | image-with-link | button | button-with-link | raw
+       mj-raw ::= balanced author HTML; also allowed between the blocks of the body, between the sections of a
+                  wrapper and among the columns of a section or group
 
    [emit_body] is a hand port of the tag / conditional-comment structure written by
    mjml/components/{body,section,column,text,divider,spacer,image,button}.go (attributes and text
@@ -21,11 +23,14 @@ Open Scope list_scope.
 Local Notation length := List.length.
 
 (* leaves that carry author content carry it as a parameter; divider and spacer write generated text *)
-Inductive leaf := KText (s : bytes) | KDivider | KSpacer | KImage | KImageLink | KButton (s : bytes) | KButtonLink (s : bytes).
+Inductive leaf := KText (s : bytes) | KDivider | KSpacer | KImage | KImageLink | KButton (s : bytes) | KButtonLink (s : bytes)
+                | KRaw (ts : list tok).                 (* mj-raw: the author's own markup *)
 Definition column := (bool * list leaf)%type.          (* true = the column has padding: its rows sit in a gutter table *)
-Inductive section := Cols (cs : list column) | Groups (gs : list (list column)).
+Inductive item := CI (cl : column) | RI (ts : list tok).   (* what a section or group holds: columns and mj-raw *)
+Inductive section := Cols (l : list item) | Groups (gs : list (list item)).
 Definition sect := (bool * section)%type.               (* true = background-url: the section is wrapped in a VML rectangle for Outlook *)
-Inductive block := Plain (s : sect) | FullWidth (s : sect) | Wrap (ss : list sect) | Hero (ks : list leaf).
+Inductive witem := WS (s : sect) | WR (ts : list tok).     (* what a wrapper holds: sections and mj-raw *)
+Inductive block := Plain (s : sect) | FullWidth (s : sect) | Wrap (ws : list witem) | Hero (ks : list leaf) | Raw (ts : list tok).
 Definition body := list block.
 
 (* a segment of output: plain markup, or the inside of one <!--[if mso | IE]> ... <![endif]--> *)
@@ -37,6 +42,15 @@ Definition txt : tok := TText (lit "~").      (* generated text (non-breaking / 
 Definition tx (s : bytes) : tok := TText s.
 Definition cond : bytes := lit "mso | IE".
 
+(* Author HTML is emitted verbatim.  The model covers documents whose mj-raw content is plain, balanced
+   markup (the property's premise on author HTML); for anything else it emits nothing, and the
+   correspondence with the implementation is claimed - and checked - only for such documents. *)
+Definition plain (t : tok) : bool :=
+  match t with TOpen _ _ _ | TClose _ | TText _ | TDoctype _ => true | _ => false end.
+Definition raw_okb (ts : list tok) : bool := forallb plain ts && balanced (flat_map tok_events ts).
+Definition raw_toks (ts : list tok) : list tok := if raw_okb ts then ts else [].
+Definition raw_seg (ts : list tok) : seg := P (raw_toks ts).
+
 Definition leaf_segs (k : leaf) : list seg :=
   match k with
   | KText s => [P [o "div"; tx s; c "div"]]
@@ -46,27 +60,48 @@ Definition leaf_segs (k : leaf) : list seg :=
   | KImageLink => [P [o "table"; o "tbody"; o "tr"; o "td"; o "a"; o "img"; c "a"; c "td"; c "tr"; c "tbody"; c "table"]]
   | KButton s => [P [o "table"; o "tbody"; o "tr"; o "td"; o "p"; tx s; c "p"; c "td"; c "tr"; c "tbody"; c "table"]]
   | KButtonLink s => [P [o "table"; o "tbody"; o "tr"; o "td"; o "a"; tx s; c "a"; c "td"; c "tr"; c "tbody"; c "table"]]
+  | KRaw ts => [raw_seg ts]
   end.
 
-Definition row_segs (k : leaf) : list seg := P [o "tr"; o "td"] :: leaf_segs k ++ [P [c "td"; c "tr"]].
+(* every component sits in its own row of the column's table; mj-raw is written as it is *)
+Definition row_segs (k : leaf) : list seg :=
+  match k with KRaw ts => [raw_seg ts] | _ => P [o "tr"; o "td"] :: leaf_segs k ++ [P [c "td"; c "tr"]] end.
 Definition col_segs (cl : column) : list seg :=
   if fst cl
   then P [o "div"; o "table"; o "tbody"; o "tr"; o "td"; o "table"; o "tbody"] :: flat_map row_segs (snd cl) ++
        [P [c "tbody"; c "table"; c "td"; c "tr"; c "tbody"; c "table"; c "div"]]
   else P [o "div"; o "table"; o "tbody"] :: flat_map row_segs (snd cl) ++ [P [c "tbody"; c "table"; c "div"]].
 
-(* the Outlook table row of a section: one cell per column, the cell hand-over inside one conditional *)
-Definition more_cols (cs : list column) : list seg := flat_map (fun ks => M [c "td"; o "td"] :: col_segs ks) cs.
-Definition cols_segs (cs : list column) : list seg :=
-  match cs with
-  | [] => [M [o "table"; o "tr"; c "tr"; c "table"]]
-  | c1 :: rest => M [o "table"; o "tr"; o "td"] :: col_segs c1 ++ more_cols rest ++ [M [c "td"; c "tr"; c "table"]]
+(* the Outlook table row of a section: one cell per column, the cell hand-over inside one conditional;
+   mj-raw before the first column precedes the table, afterwards it sits inside the current cell *)
+Fixpoint items_segs (opened : bool) (l : list item) : list seg :=
+  match l with
+  | [] => if opened then [M [c "td"; c "tr"; c "table"]] else []
+  | RI ts :: r => raw_seg ts :: items_segs opened r
+  | CI cl :: r => (if opened then M [c "td"; o "td"] else M [o "table"; o "tr"; o "td"]) :: col_segs cl ++ items_segs true r
   end.
-Definition group_segs (cs : list column) : list seg :=
-  M [o "table"; o "tr"; o "td"] :: P [o "div"] :: (match cs with [] => [] | _ => cols_segs cs end) ++ [P [c "div"]; M [c "td"; c "tr"; c "table"]].
+Definition is_col (i : item) : bool := match i with CI _ => true | RI _ => false end.
+Definition has_col (l : list item) : bool := existsb is_col l.
+Definition raws_only (l : list item) : list seg := flat_map (fun i => match i with RI ts => [raw_seg ts] | CI _ => [] end) l.
+Definition cols_segs (l : list item) : list seg :=
+  if has_col l then items_segs false l else M [o "table"; o "tr"] :: raws_only l ++ [M [c "tr"; c "table"]].
+(* in a group, mj-raw behind the last column follows the closed Outlook table *)
+Fixpoint split_trail (l : list item) : list item * list item :=      (* (up to the last column, trailing mj-raw) *)
+  match l with
+  | [] => ([], [])
+  | i :: r => let (f, t) := split_trail r in
+              match f, i with
+              | [], RI _ => ([], i :: t)
+              | _, _ => (i :: f, t)
+              end
+  end.
+Definition group_inner (l : list item) : list seg :=
+  if has_col l then items_segs false (fst (split_trail l)) ++ raws_only (snd (split_trail l)) else raws_only l.
+Definition group_segs (l : list item) : list seg :=
+  M [o "table"; o "tr"; o "td"] :: P [o "div"] :: group_inner l ++ [P [c "div"]; M [c "td"; c "tr"; c "table"]].
 Definition children_segs (s : section) : list seg :=
   match s with
-  | Cols cs => cols_segs cs
+  | Cols l => cols_segs l
   | Groups [] => cols_segs []
   | Groups gs => flat_map group_segs gs
   end.
@@ -79,16 +114,21 @@ Definition vml_close : seg := M [c "v:textbox"; c "v:rect"].
 Definition sect_segs (s : sect) : list seg :=
   if fst s then vml_open :: P [o "div"] :: sec_segs (snd s) ++ [P [c "div"]; vml_close] else sec_segs (snd s).
 
-(* inside a wrapper every section sits in its own row of the wrapper's Outlook table *)
-Definition more_wrapped (ss : list sect) : list seg :=
-  flat_map (fun s => M [c "td"; c "tr"; c "table"; c "td"; c "tr"; o "tr"; o "td"; o "table"; o "tr"; o "td"] :: sect_segs s) ss.
-Definition wrap_inner (ss : list sect) : list seg :=
-  match ss with
-  | [] => [M [o "table"; c "table"]]
-  | s1 :: rest => M [o "table"; o "tr"; o "td"; o "table"; o "tr"; o "td"] :: sect_segs s1 ++ more_wrapped rest
-                  ++ [M [c "td"; c "tr"; c "table"; c "td"; c "tr"; c "table"]]
+(* inside a wrapper every section sits in its own row of the wrapper's Outlook table; mj-raw sits between two rows *)
+Definition open5 : list tok := [o "tr"; o "td"; o "table"; o "tr"; o "td"].
+Definition close5 : list tok := [c "td"; c "tr"; c "table"; c "td"; c "tr"].
+Fixpoint witems_segs (used : bool) (l : list witem) : list seg :=
+  match l with
+  | [] => [M (close5 ++ [c "table"])]
+  | WS s :: r => (if used then [M (close5 ++ open5)] else []) ++ sect_segs s ++ witems_segs true r
+  | WR ts :: r => M close5 :: raw_seg ts :: M open5 :: witems_segs false r
   end.
-Definition wrap_segs (ss : list sect) : list seg :=
+Definition wrap_inner (l : list witem) : list seg :=
+  match l with
+  | [] => [M [o "table"; c "table"]]
+  | _ => M (o "table" :: open5) :: witems_segs false l
+  end.
+Definition wrap_segs (ss : list witem) : list seg :=
   P [o "div"; o "table"; o "tbody"; o "tr"; o "td"] :: wrap_inner ss ++ [P [c "td"; c "tr"; c "tbody"; c "table"; c "div"]].
 
 (* Body: a plain section leaves its Outlook wrapper table open for a following plain section or
@@ -96,7 +136,7 @@ Definition wrap_segs (ss : list sect) : list seg :=
 Definition close3 : seg := M [c "td"; c "tr"; c "table"].
 Definition open_seg (pend : bool) : seg :=
   if pend then M [c "td"; c "tr"; c "table"; o "table"; o "tr"; o "td"] else M [o "table"; o "tr"; o "td"].
-Definition continues (b : block) : bool := match b with Plain _ | Wrap _ => true | FullWidth _ | Hero _ => false end.
+Definition continues (b : block) : bool := match b with Plain _ | Wrap _ => true | FullWidth _ | Hero _ | Raw _ => false end.
 (* full-width: the VML rectangle encloses the Outlook table, not the other way round *)
 Definition fw_segs (s : sect) : list seg :=
   if fst s
@@ -120,6 +160,7 @@ Fixpoint blocks_segs (pend : bool) (bs : list block) : list seg :=
   | Wrap ss :: r => open_seg pend :: wrap_segs ss ++ close3 :: blocks_segs false r
   | FullWidth s :: r => (if pend then [close3] else []) ++ fw_segs s ++ blocks_segs false r
   | Hero ks :: r => (if pend then [close3] else []) ++ hero_segs ks ++ blocks_segs false r
+  | Raw ts :: r => (if pend then [close3] else []) ++ raw_seg ts :: blocks_segs false r
   end.
 Definition body_segs (b : body) : list seg := P [o "div"] :: blocks_segs false b ++ [P [c "div"]].
 
@@ -129,8 +170,6 @@ Definition flat (l : list seg) : list tok := flat_map seg_toks l.
 Definition emit_body (b : body) : list tok := flat (body_segs b).
 
 (* ---- from tokens to events -------------------------------------------------------------- *)
-Definition plain (t : tok) : bool :=
-  match t with TOpen _ _ _ | TClose _ | TText _ | TDoctype _ => true | _ => false end.
 Definition seg_plain (s : seg) : bool := match s with P ts | M ts => forallb plain ts end.
 Definition seg_events (v : view_kind) (s : seg) : list ev :=
   match s, v with
@@ -175,18 +214,33 @@ Lemma forallb_flat_map {A B} (f : A -> list B) (p : B -> bool) l : (forall x, fo
 Proof. intros H. induction l as [|x r IH]; cbn; [reflexivity|]. rewrite forallb_app, H, IH. reflexivity. Qed.
 
 (* every emitted segment is plain markup *)
-Lemma leaf_plain k : forallb seg_plain (leaf_segs k) = true. Proof. destruct k; reflexivity. Qed.
+Lemma raw_plain ts : forallb plain (raw_toks ts) = true.
+Proof. unfold raw_toks, raw_okb. destruct (forallb plain ts) eqn:E; cbn [andb]; [destruct (balanced _); [exact E|reflexivity]|reflexivity]. Qed.
+Lemma raw_seg_plain ts : seg_plain (raw_seg ts) = true. Proof. apply raw_plain. Qed.
+Lemma leaf_plain k : forallb seg_plain (leaf_segs k) = true.
+Proof. destruct k; try reflexivity. cbn [leaf_segs forallb]. now rewrite raw_seg_plain. Qed.
 Lemma row_plain k : forallb seg_plain (row_segs k) = true.
-Proof. unfold row_segs. cbn [forallb]. rewrite forallb_app, leaf_plain. reflexivity. Qed.
+Proof.
+  destruct k; try (unfold row_segs; cbn [forallb]; rewrite forallb_app, leaf_plain; reflexivity).
+  cbn [row_segs forallb]. now rewrite raw_seg_plain.
+Qed.
 Lemma col_plain ks : forallb seg_plain (col_segs ks) = true.
 Proof. destruct ks as [g ks]. unfold col_segs. destruct g; cbn [fst snd forallb]; rewrite forallb_app, (forallb_flat_map row_segs seg_plain ks row_plain); reflexivity. Qed.
-Lemma cols_plain cs : forallb seg_plain (cols_segs cs) = true.
+Lemma items_plain : forall l opened, forallb seg_plain (items_segs opened l) = true.
 Proof.
-  destruct cs as [|c1 rest]; [reflexivity|]. unfold cols_segs. cbn [forallb]. rewrite !forallb_app, col_plain.
-  unfold more_cols. rewrite forallb_flat_map; [reflexivity|]. intros ks. cbn [forallb]. now rewrite col_plain.
+  induction l as [|i r IH]; intros opened; [destruct opened; reflexivity|].
+  destruct i as [cl|ts]; cbn [items_segs forallb].
+  - rewrite forallb_app, col_plain, IH. destruct opened; reflexivity.
+  - now rewrite raw_seg_plain, IH.
 Qed.
-Lemma group_plain cs : forallb seg_plain (group_segs cs) = true.
-Proof. unfold group_segs. cbn [forallb]. rewrite forallb_app. destruct cs; [reflexivity|]. rewrite cols_plain. reflexivity. Qed.
+Lemma raws_only_plain l : forallb seg_plain (raws_only l) = true.
+Proof. unfold raws_only. apply forallb_flat_map. intros i. destruct i; [reflexivity|]. cbn [forallb]. now rewrite raw_seg_plain. Qed.
+Lemma cols_plain l : forallb seg_plain (cols_segs l) = true.
+Proof. unfold cols_segs. destruct (has_col l); [apply items_plain|]. cbn [forallb]. rewrite forallb_app, raws_only_plain. reflexivity. Qed.
+Lemma group_inner_plain l : forallb seg_plain (group_inner l) = true.
+Proof. unfold group_inner. destruct (has_col l); [rewrite forallb_app, items_plain, raws_only_plain|rewrite raws_only_plain]; reflexivity. Qed.
+Lemma group_plain l : forallb seg_plain (group_segs l) = true.
+Proof. unfold group_segs. cbn [forallb]. rewrite forallb_app, group_inner_plain. reflexivity. Qed.
 Lemma children_plain s : forallb seg_plain (children_segs s) = true.
 Proof.
   destruct s as [cs|gs]; cbn [children_segs]; [apply cols_plain|]. destruct gs as [|g gs]; [reflexivity|].
@@ -196,11 +250,17 @@ Lemma sec_plain s : forallb seg_plain (sec_segs s) = true.
 Proof. unfold sec_segs. cbn [forallb]. rewrite forallb_app, children_plain. reflexivity. Qed.
 Lemma sect_plain s : forallb seg_plain (sect_segs s) = true.
 Proof. destruct s as [bg s]. unfold sect_segs. destruct bg; cbn [fst snd]; [|apply sec_plain]. cbn [forallb]. rewrite forallb_app, sec_plain. reflexivity. Qed.
+Lemma witems_plain : forall l used, forallb seg_plain (witems_segs used l) = true.
+Proof.
+  induction l as [|i r IH]; intros used; [reflexivity|].
+  destruct i as [s|ts]; cbn [witems_segs].
+  - rewrite !forallb_app, sect_plain, IH. destruct used; reflexivity.
+  - cbn [forallb]. now rewrite raw_seg_plain, IH.
+Qed.
 Lemma wrap_plain ss : forallb seg_plain (wrap_segs ss) = true.
 Proof.
   unfold wrap_segs. cbn [forallb]. rewrite forallb_app. destruct ss as [|s1 rest]; [reflexivity|].
-  unfold wrap_inner. cbn [forallb]. rewrite !forallb_app, sect_plain. unfold more_wrapped.
-  rewrite forallb_flat_map; [reflexivity|]. intros s. cbn [forallb]. now rewrite sect_plain.
+  unfold wrap_inner. cbn [forallb]. rewrite witems_plain. reflexivity.
 Qed.
 Lemma fw_plain s : forallb seg_plain (fw_segs s) = true.
 Proof. destruct s as [bg s]. unfold fw_segs. destruct bg; cbn [fst snd forallb]; rewrite forallb_app, sec_plain; reflexivity. Qed.
@@ -211,12 +271,13 @@ Proof.
   induction bs as [|b r IH]; intros pend; [destruct pend; reflexivity|].
   assert (E : forallb seg_plain (if pend then [close3] else []) = true) by (destruct pend; reflexivity).
   assert (O : seg_plain (open_seg pend) = true) by (destruct pend; reflexivity).
-  destruct b as [s|s|ss|ks]; cbn [blocks_segs].
+  destruct b as [s|s|ss|ks|ts]; cbn [blocks_segs].
   - cbn [forallb]. rewrite forallb_app, sect_plain, O.
     destruct r as [|b' r']; [reflexivity|]. destruct (continues b' && negb (fst s)); [apply IH|]. cbn [forallb]. now rewrite IH.
   - rewrite !forallb_app, E, fw_plain, IH. reflexivity.
   - cbn [forallb]. rewrite forallb_app, wrap_plain, O. cbn [forallb]. now rewrite IH.
   - rewrite !forallb_app, E, hero_plain, IH. reflexivity.
+  - rewrite forallb_app, E. cbn [forallb]. now rewrite raw_seg_plain, IH.
 Qed.
 Lemma body_plain b : forallb seg_plain (body_segs b) = true.
 Proof. unfold body_segs. cbn [forallb]. rewrite forallb_app, blocks_plain. reflexivity. Qed.
@@ -238,9 +299,16 @@ Definition te (s : bytes) : list ev := tok_events (TText s).
 Lemma run_te st s r : run st (te s ++ r) = run st r.
 Proof. unfold te. cbn [tok_events]. destruct (all_space s); reflexivity. Qed.
 
+Lemma raw_wb v ts : wb (events v [raw_seg ts]).
+Proof.
+  unfold events. cbn [flat_map raw_seg seg_events]. rewrite app_nil_r.
+  replace (match v with Std => flat_map tok_events (raw_toks ts) | Mso => flat_map tok_events (raw_toks ts) end) with (flat_map tok_events (raw_toks ts)) by (destruct v; reflexivity).
+  unfold raw_toks, raw_okb. destruct (forallb plain ts); cbn [andb]; [|apply wb_nil].
+  destruct (balanced (flat_map tok_events ts)) eqn:B; [now apply balanced_wb|apply wb_nil].
+Qed.
 Lemma leaf_wb v k : wb (events v (leaf_segs k)).
 Proof.
-  destruct k as [s| | | | |s|s]; try (apply balanced_wb; destruct v; vm_compute; reflexivity).
+  destruct k as [s| | | | |s|s|ts]; try (apply balanced_wb; destruct v; vm_compute; reflexivity); [| | |apply raw_wb].
   - assert (E : events v (leaf_segs (KText s)) = eo "div" :: te s ++ [ec "div"])
       by (unfold events; cbn [leaf_segs flat_map]; rewrite app_nil_r; destruct v; reflexivity).
     rewrite E. intros st. now rewrite run_eo, run_te, run_ec.
@@ -259,10 +327,15 @@ Proof.
   apply wb_wrap. apply wb_wrap. exact H.
 Qed.
 
-Lemma row_events v k : events v (row_segs k) = eo "tr" :: eo "td" :: events v (leaf_segs k) ++ [ec "td"; ec "tr"].
-Proof. unfold row_segs. rewrite events_cons, events_app. destruct v; reflexivity. Qed.
 Lemma row_wb v k : wb (events v (row_segs k)).
-Proof. rewrite row_events. apply wrap2. apply leaf_wb. Qed.
+Proof.
+  assert (G : wb (events v (P [o "tr"; o "td"] :: leaf_segs k ++ [P [c "td"; c "tr"]]))).
+  { rewrite events_cons, events_app.
+    replace (seg_events v (P [o "tr"; o "td"])) with [eo "tr"; eo "td"] by (destruct v; reflexivity).
+    replace (events v [P [c "td"; c "tr"]]) with [ec "td"; ec "tr"] by (destruct v; reflexivity).
+    cbn [app]. apply wrap2. apply leaf_wb. }
+  destruct k; try exact G. apply raw_wb.
+Qed.
 
 Lemma events_flat_map {A} v (f : A -> list seg) l : events v (flat_map f l) = flat_map (fun x => events v (f x)) l.
 Proof. induction l as [|x r IH]; cbn [flat_map]; [reflexivity|]. now rewrite events_app, IH. Qed.
@@ -299,33 +372,52 @@ Proof.
   - apply wrap3. apply wb_concat_map. intros k. apply row_wb.
 Qed.
 
-Lemma more_cols_std rest : wb (events Std (more_cols rest)).
-Proof. unfold more_cols. rewrite events_flat_map. apply wb_concat_map. intros ks. cbn [events flat_map seg_events app]. apply col_wb. Qed.
-Lemma more_cols_mso : forall rest st, run (lit "td" :: st) (events Mso (more_cols rest)) = Some (lit "td" :: st).
+Lemma raw_seg_std ts : seg_events Std (raw_seg ts) = seg_events Mso (raw_seg ts). Proof. reflexivity. Qed.
+Lemma raw_run v ts st r : run st (seg_events v (raw_seg ts) ++ r) = run st r.
 Proof.
-  induction rest as [|ks rest IH]; intros st; [reflexivity|].
-  unfold more_cols. cbn [flat_map]. change (flat_map (fun ks0 => M [c "td"; o "td"] :: col_segs ks0) rest) with (more_cols rest).
-  rewrite events_app, events_cons. change (seg_events Mso (M [c "td"; o "td"])) with [ec "td"; eo "td"].
-  rewrite <- app_assoc. cbn [app]. rewrite run_ec, run_eo, run_app, (col_wb Mso ks). apply IH.
+  pose proof (raw_wb v ts) as H. unfold events in H. cbn [flat_map] in H. rewrite app_nil_r in H.
+  rewrite run_app, H. reflexivity.
+Qed.
+Lemma items_std : forall l opened, wb (events Std (items_segs opened l)).
+Proof.
+  induction l as [|i r IH]; intros opened; [destruct opened; apply balanced_wb; reflexivity|].
+  destruct i as [cl|ts]; cbn [items_segs].
+  - rewrite events_cons, events_app. replace (seg_events Std (if opened then M [c "td"; o "td"] else M [o "table"; o "tr"; o "td"])) with (@nil ev) by (destruct opened; reflexivity).
+    cbn [app]. apply wb_app; [apply col_wb|apply IH].
+  - rewrite events_cons. intros st. rewrite raw_run. apply IH.
+Qed.
+Definition ostack (opened : bool) (st : list bytes) : list bytes := if opened then lit "td" :: lit "tr" :: lit "table" :: st else st.
+Lemma items_mso : forall l opened st, run (ostack opened st) (events Mso (items_segs opened l)) = Some st.
+Proof.
+  induction l as [|i r IH]; intros opened st.
+  - destruct opened; [|reflexivity]. cbn [items_segs ostack]. change (events Mso [M [c "td"; c "tr"; c "table"]]) with [ec "td"; ec "tr"; ec "table"]. now rewrite !run_ec.
+  - destruct i as [cl|ts]; cbn [items_segs].
+    + rewrite events_cons, events_app. destruct opened; cbn [ostack].
+      * change (seg_events Mso (M [c "td"; o "td"])) with [ec "td"; eo "td"]. cbn [app]. rewrite run_ec, run_eo, run_app, (col_wb Mso cl). apply (IH true st).
+      * change (seg_events Mso (M [o "table"; o "tr"; o "td"])) with [eo "table"; eo "tr"; eo "td"]. cbn [app]. rewrite !run_eo, run_app, (col_wb Mso cl). apply (IH true st).
+    + rewrite events_cons, raw_run. apply IH.
+Qed.
+Lemma raws_only_wb v l : wb (events v (raws_only l)).
+Proof.
+  unfold raws_only. rewrite events_flat_map. apply wb_concat_map. intros i. destruct i as [cl|ts]; [apply wb_nil|apply raw_wb].
+Qed.
+Lemma items_wb v l : wb (events v (items_segs false l)).
+Proof. destruct v; [apply items_std|]. intros st. apply (items_mso l false st). Qed.
+Lemma cols_wb v l : wb (events v (cols_segs l)).
+Proof.
+  unfold cols_segs. destruct (has_col l); [apply items_wb|].
+  rewrite events_cons, events_app. destruct v.
+  - change (seg_events Std (M [o "table"; o "tr"])) with (@nil ev). change (events Std [M [c "tr"; c "table"]]) with (@nil ev).
+    cbn [app]. rewrite app_nil_r. apply raws_only_wb.
+  - change (seg_events Mso (M [o "table"; o "tr"])) with [eo "table"; eo "tr"]. change (events Mso [M [c "tr"; c "table"]]) with [ec "tr"; ec "table"].
+    cbn [app]. apply wrap2. apply raws_only_wb.
 Qed.
 
-Lemma cols_wb v cs : wb (events v (cols_segs cs)).
-Proof.
-  destruct cs as [|c1 rest].
-  - apply balanced_wb. destruct v; vm_compute; reflexivity.
-  - unfold cols_segs. rewrite events_cons, !events_app. destruct v.
-    + change (seg_events Std (M [o "table"; o "tr"; o "td"])) with (@nil ev).
-      change (events Std [M [c "td"; c "tr"; c "table"]]) with (@nil ev).
-      cbn [app]. rewrite app_nil_r. apply wb_app; [apply col_wb|apply more_cols_std].
-    + change (seg_events Mso (M [o "table"; o "tr"; o "td"])) with [eo "table"; eo "tr"; eo "td"].
-      change (events Mso [M [c "td"; c "tr"; c "table"]]) with [ec "td"; ec "tr"; ec "table"].
-      intros st. cbn [app]. rewrite !run_eo, run_app, (col_wb Mso c1), run_app, more_cols_mso, !run_ec. reflexivity.
-Qed.
-
-Lemma group_wb v cs : wb (events v (group_segs cs)).
+Lemma group_wb v l : wb (events v (group_segs l)).
 Proof.
   unfold group_segs. rewrite !events_cons, events_app.
-  assert (I : wb (events v (match cs with [] => [] | _ => cols_segs cs end))) by (destruct cs; [apply wb_nil|apply cols_wb]).
+  assert (I : wb (events v (group_inner l))).
+  { unfold group_inner. destruct (has_col l); [|apply raws_only_wb]. rewrite events_app. apply wb_app; [apply items_wb|apply raws_only_wb]. }
   destruct v.
   - change (seg_events Std (M [o "table"; o "tr"; o "td"])) with (@nil ev). change (seg_events Std (P [o "div"])) with [eo "div"].
     change (events Std [P [c "div"]; M [c "td"; c "tr"; c "table"]]) with [ec "div"]. cbn [app]. apply (wb_wrap (lit "div")). exact I.
@@ -356,33 +448,41 @@ Proof.
 Qed.
 
 (* wrapper: one row per section in the wrapper's Outlook table *)
-Lemma more_wrapped_std rest : wb (events Std (more_wrapped rest)).
-Proof. unfold more_wrapped. rewrite events_flat_map. apply wb_concat_map. intros s. cbn [events flat_map seg_events app]. apply sect_wb. Qed.
 Definition wstack (st : list bytes) : list bytes :=
   lit "td" :: lit "tr" :: lit "table" :: lit "td" :: lit "tr" :: lit "table" :: st.
-Lemma more_wrapped_mso : forall rest st, run (wstack st) (events Mso (more_wrapped rest)) = Some (wstack st).
+Lemma witems_std : forall l used, wb (events Std (witems_segs used l)).
 Proof.
-  induction rest as [|s rest IH]; intros st; [reflexivity|].
-  unfold more_wrapped. cbn [flat_map].
-  change (flat_map (fun s0 => M [c "td"; c "tr"; c "table"; c "td"; c "tr"; o "tr"; o "td"; o "table"; o "tr"; o "td"] :: sect_segs s0) rest) with (more_wrapped rest).
-  rewrite events_app, events_cons.
-  change (seg_events Mso (M [c "td"; c "tr"; c "table"; c "td"; c "tr"; o "tr"; o "td"; o "table"; o "tr"; o "td"]))
-    with [ec "td"; ec "tr"; ec "table"; ec "td"; ec "tr"; eo "tr"; eo "td"; eo "table"; eo "tr"; eo "td"].
-  rewrite <- app_assoc. unfold wstack. cbn [app]. rewrite !run_ec, !run_eo, run_app, (sect_wb Mso s). apply IH.
+  induction l as [|i r IH]; intros used; [apply balanced_wb; reflexivity|].
+  destruct i as [s|ts]; cbn [witems_segs].
+  - rewrite !events_app. replace (events Std (if used then [M (close5 ++ open5)] else [])) with (@nil ev) by (destruct used; reflexivity).
+    cbn [app]. apply wb_app; [apply sect_wb|apply IH].
+  - rewrite !events_cons. change (seg_events Std (M close5)) with (@nil ev). change (seg_events Std (M open5)) with (@nil ev).
+    cbn [app]. intros st. rewrite raw_run. apply IH.
+Qed.
+Lemma witems_mso : forall l used st, run (wstack st) (events Mso (witems_segs used l)) = Some st.
+Proof.
+  induction l as [|i r IH]; intros used st.
+  - cbn [witems_segs]. change (events Mso [M (close5 ++ [c "table"])]) with [ec "td"; ec "tr"; ec "table"; ec "td"; ec "tr"; ec "table"].
+    unfold wstack. now rewrite !run_ec.
+  - destruct i as [s|ts]; cbn [witems_segs].
+    + rewrite !events_app, run_app.
+      assert (E : run (wstack st) (events Mso (if used then [M (close5 ++ open5)] else [])) = Some (wstack st)).
+      { destruct used; [|reflexivity].
+        change (events Mso [M (close5 ++ open5)]) with [ec "td"; ec "tr"; ec "table"; ec "td"; ec "tr"; eo "tr"; eo "td"; eo "table"; eo "tr"; eo "td"].
+        unfold wstack. now rewrite !run_ec, !run_eo. }
+      rewrite E, run_app, (sect_wb Mso s). apply IH.
+    + rewrite !events_cons.
+      change (seg_events Mso (M close5)) with [ec "td"; ec "tr"; ec "table"; ec "td"; ec "tr"].
+      change (seg_events Mso (M open5)) with [eo "tr"; eo "td"; eo "table"; eo "tr"; eo "td"].
+      unfold wstack. cbn [app]. rewrite !run_ec, raw_run. cbn [app]. rewrite !run_eo. apply (IH false st).
 Qed.
 Lemma wrap_inner_wb v ss : wb (events v (wrap_inner ss)).
 Proof.
-  destruct ss as [|s1 rest].
-  - apply balanced_wb. destruct v; vm_compute; reflexivity.
-  - unfold wrap_inner. rewrite events_cons, !events_app. destruct v.
-    + change (seg_events Std (M [o "table"; o "tr"; o "td"; o "table"; o "tr"; o "td"])) with (@nil ev).
-      change (events Std [M [c "td"; c "tr"; c "table"; c "td"; c "tr"; c "table"]]) with (@nil ev).
-      cbn [app]. rewrite app_nil_r. apply wb_app; [apply sect_wb|apply more_wrapped_std].
-    + change (seg_events Mso (M [o "table"; o "tr"; o "td"; o "table"; o "tr"; o "td"])) with [eo "table"; eo "tr"; eo "td"; eo "table"; eo "tr"; eo "td"].
-      change (events Mso [M [c "td"; c "tr"; c "table"; c "td"; c "tr"; c "table"]]) with [ec "td"; ec "tr"; ec "table"; ec "td"; ec "tr"; ec "table"].
-      intros st. cbn [app]. rewrite !run_eo, run_app, (sect_wb Mso s1), run_app.
-      change (lit "td" :: lit "tr" :: lit "table" :: lit "td" :: lit "tr" :: lit "table" :: st) with (wstack st).
-      rewrite more_wrapped_mso. unfold wstack. rewrite !run_ec. reflexivity.
+  destruct ss as [|s1 rest]; [apply balanced_wb; destruct v; vm_compute; reflexivity|].
+  unfold wrap_inner. rewrite events_cons. destruct v.
+  - change (seg_events Std (M (o "table" :: open5))) with (@nil ev). cbn [app]. apply witems_std.
+  - change (seg_events Mso (M (o "table" :: open5))) with [eo "table"; eo "tr"; eo "td"; eo "table"; eo "tr"; eo "td"].
+    intros st. cbn [app]. rewrite !run_eo. apply (witems_mso (s1 :: rest) false st).
 Qed.
 Lemma wrap_wb v ss : wb (events v (wrap_segs ss)).
 Proof.
@@ -447,7 +547,7 @@ Lemma blocks_std : forall bs pend, wb (events Std (blocks_segs pend bs)).
 Proof.
   induction bs as [|b r IH]; intros pend; [destruct pend; apply balanced_wb; reflexivity|].
   assert (E : events Std (if pend then [close3] else []) = []) by (destruct pend; reflexivity).
-  destruct b as [s|s|ss|ks]; cbn [blocks_segs].
+  destruct b as [s|s|ss|ks|ts]; cbn [blocks_segs]; [| | | |rewrite events_app, E; cbn [app]; rewrite events_cons; intros st; rewrite raw_run; apply IH].
   - rewrite events_cons, events_app. replace (seg_events Std (open_seg pend)) with (@nil ev) by (destruct pend; reflexivity).
     cbn [app]. apply wb_app; [apply sect_wb|]. destruct r as [|b' r']; [apply balanced_wb; reflexivity|].
     destruct (continues b' && negb (fst s)); [apply IH|]. rewrite events_cons. change (seg_events Std close3) with (@nil ev). apply IH.
@@ -473,7 +573,7 @@ Lemma blocks_mso : forall bs pend st, run (pstack pend st) (events Mso (blocks_s
 Proof.
   induction bs as [|b r IH]; intros pend st.
   - apply run_pend.
-  - destruct b as [s|s|ss|ks]; cbn [blocks_segs].
+  - destruct b as [s|s|ss|ks|ts]; cbn [blocks_segs]; [| | | |rewrite events_app, run_app, run_pend, events_cons, raw_run; apply (IH false st)].
     + rewrite events_cons, events_app, run_open, run_app, (sect_wb Mso s).
       destruct r as [|b' r']; [change (events Mso [close3]) with [ec "td"; ec "tr"; ec "table"]; now rewrite !run_ec|].
       destruct (continues b' && negb (fst s)).
@@ -511,28 +611,35 @@ Proof. unfold te, vis. cbn [tok_events]. destruct (all_space s); reflexivity. Qe
 
 (* what each leaf shows: its author content; the spacer's generated hair space; the divider's
    generated non-breaking space only to Outlook *)
+Definition raw_texts (ts : list tok) : list bytes := texts (flat_map tok_events (raw_toks ts)).   (* the author's own text *)
 Definition leaf_texts (v : view_kind) (k : leaf) : list bytes :=
   match k, v with
   | KText s, _ | KButton s, _ | KButtonLink s, _ => vis s
+  | KRaw ts, _ => raw_texts ts
   | KSpacer, _ => [lit "~"]
   | KDivider, Mso => [lit "~"]
   | _, _ => []
   end.
 Definition col_texts v (cl : column) := flat_map (leaf_texts v) (snd cl).
-Definition cols_texts v (cs : list column) := flat_map (col_texts v) cs.
+Definition item_texts v (i : item) := match i with CI cl => col_texts v cl | RI ts => raw_texts ts end.
+Definition cols_texts v (l : list item) := flat_map (item_texts v) l.
 Definition sec_texts v (s : section) :=
-  match s with Cols cs => cols_texts v cs | Groups gs => flat_map (cols_texts v) gs end.
+  match s with Cols l => cols_texts v l | Groups gs => flat_map (cols_texts v) gs end.
+Definition witem_texts v (i : witem) := match i with WS s => sec_texts v (snd s) | WR ts => raw_texts ts end.
 Definition block_texts v (b : block) :=
   match b with
   | Plain s | FullWidth s => sec_texts v (snd s)
-  | Wrap ss => flat_map (fun s => sec_texts v (snd s)) ss
+  | Wrap ws => flat_map (witem_texts v) ws
   | Hero ks => flat_map (leaf_texts v) ks
+  | Raw ts => raw_texts ts
   end.
 Definition body_texts v (b : body) : list bytes := flat_map (block_texts v) b.
 
+Lemma raw_txt v ts l : texts (events v (raw_seg ts :: l)) = raw_texts ts ++ texts (events v l).
+Proof. rewrite events_cons, texts_app. f_equal; destruct v; reflexivity. Qed.
 Lemma leaf_txt v k : texts (events v (leaf_segs k)) = leaf_texts v k.
 Proof.
-  destruct k as [s| | | | |s|s]; try (destruct v; reflexivity).
+  destruct k as [s| | | | |s|s|ts]; try (destruct v; reflexivity).
   - assert (E : events v (leaf_segs (KText s)) = eo "div" :: te s ++ [ec "div"])
       by (unfold events; cbn [leaf_segs flat_map]; rewrite app_nil_r; destruct v; reflexivity).
     rewrite E. change (eo "div" :: te s ++ [ec "div"]) with ([eo "div"] ++ te s ++ [ec "div"]).
@@ -543,11 +650,15 @@ Proof.
   - assert (E : events v (leaf_segs (KButtonLink s)) = [eo "table"; eo "tbody"; eo "tr"; eo "td"; eo "a"] ++ te s ++ [ec "a"; ec "td"; ec "tr"; ec "tbody"; ec "table"])
       by (unfold events; cbn [leaf_segs flat_map]; rewrite app_nil_r; destruct v; reflexivity).
     rewrite E, !texts_app, texts_te. unfold eo, ec; cbn [texts flat_map app]; rewrite ?app_nil_r; destruct v; reflexivity.
+  - cbn [leaf_segs]. rewrite raw_txt. cbn [events flat_map texts]. rewrite app_nil_r. destruct v; reflexivity.
 Qed.
 Lemma row_txt v k : texts (events v (row_segs k)) = leaf_texts v k.
 Proof.
-  rewrite row_events. change (eo "tr" :: eo "td" :: ?x) with ([eo "tr"; eo "td"] ++ x).
-  rewrite !texts_app, leaf_txt. unfold eo, ec; cbn [texts flat_map app]; now rewrite ?app_nil_r.
+  assert (G : texts (events v (P [o "tr"; o "td"] :: leaf_segs k ++ [P [c "td"; c "tr"]])) = leaf_texts v k).
+  { rewrite events_cons, events_app, !texts_app, leaf_txt.
+    replace (texts (seg_events v (P [o "tr"; o "td"]))) with (@nil bytes) by (destruct v; reflexivity).
+    replace (texts (events v [P [c "td"; c "tr"]])) with (@nil bytes) by (destruct v; reflexivity). cbn [app]. now rewrite app_nil_r. }
+  destruct k; try exact G. exact (leaf_txt v (KRaw ts)).
 Qed.
 Lemma rows_txt v ks : texts (flat_map (fun k => events v (row_segs k)) ks) = flat_map (leaf_texts v) ks.
 Proof. rewrite texts_flat_map. apply flat_map_ext. intros k. apply row_txt. Qed.
@@ -566,24 +677,43 @@ Lemma silent_txt v sg l : silent sg -> texts (events v (sg :: l)) = texts (event
 Proof. intros H. rewrite events_cons, texts_app, H. reflexivity. Qed.
 Ltac sil := intros v0; destruct v0; reflexivity.
 
-Lemma more_cols_txt v rest : texts (events v (more_cols rest)) = cols_texts v rest.
+Lemma items_txt v : forall l opened, texts (events v (items_segs opened l)) = cols_texts v l.
 Proof.
-  induction rest as [|ks rest IH]; [reflexivity|].
-  unfold more_cols. cbn [flat_map]. change (flat_map (fun ks0 => M [c "td"; o "td"] :: col_segs ks0) rest) with (more_cols rest).
-  rewrite events_app, texts_app, silent_txt by sil. rewrite col_txt, IH. reflexivity.
+  induction l as [|i r IH]; intros opened; [destruct opened, v; reflexivity|].
+  destruct i as [cl|ts]; cbn [items_segs cols_texts flat_map item_texts].
+  - rewrite silent_txt by (destruct opened; sil). rewrite events_app, texts_app, col_txt. f_equal. apply IH.
+  - rewrite raw_txt. f_equal. apply IH.
 Qed.
-Lemma cols_txt v cs : texts (events v (cols_segs cs)) = cols_texts v cs.
+Lemma raws_only_txt v : forall l, has_col l = false -> texts (events v (raws_only l)) = cols_texts v l.
 Proof.
-  destruct cs as [|c1 rest]; [destruct v; reflexivity|].
-  unfold cols_segs. rewrite silent_txt by sil. rewrite !events_app, !texts_app, col_txt, more_cols_txt.
-  replace (texts (events v [M [c "td"; c "tr"; c "table"]])) with (@nil bytes) by (destruct v; reflexivity).
-  now rewrite app_nil_r.
+  induction l as [|i r IH]; intros H; [reflexivity|]. destruct i as [cl|ts]; cbn [has_col existsb is_col orb] in H; [discriminate|].
+  unfold raws_only. cbn [flat_map]. change (flat_map (fun i => match i with RI ts0 => [raw_seg ts0] | CI _ => [] end) r) with (raws_only r).
+  cbn [app cols_texts flat_map item_texts]. rewrite raw_txt. f_equal. now apply IH.
 Qed.
-Lemma group_txt v cs : texts (events v (group_segs cs)) = cols_texts v cs.
+Lemma cols_txt v l : texts (events v (cols_segs l)) = cols_texts v l.
+Proof.
+  unfold cols_segs. destruct (has_col l) eqn:H; [apply items_txt|].
+  rewrite silent_txt by sil. rewrite events_app, texts_app, (raws_only_txt v l H).
+  replace (texts (events v [M [c "tr"; c "table"]])) with (@nil bytes) by (destruct v; reflexivity). now rewrite app_nil_r.
+Qed.
+Lemma split_trail_app : forall l, fst (split_trail l) ++ snd (split_trail l) = l.
+Proof.
+  induction l as [|i r IH]; [reflexivity|]. cbn [split_trail]. destruct (split_trail r) as [f t]. cbn [fst snd] in IH.
+  destruct f as [|x f']; destruct i as [cl|ts]; cbn [fst snd app] in *; subst r; reflexivity.
+Qed.
+Lemma split_trail_raws : forall l, has_col (snd (split_trail l)) = false.
+Proof.
+  induction l as [|i r IH]; [reflexivity|]. cbn [split_trail]. destruct (split_trail r) as [f t]. cbn [fst snd] in IH.
+  destruct f as [|x f']; destruct i as [cl|ts]; cbn [fst snd]; try exact IH; cbn [has_col existsb is_col orb]; exact IH.
+Qed.
+Lemma cols_texts_app v a b : cols_texts v (a ++ b) = cols_texts v a ++ cols_texts v b.
+Proof. unfold cols_texts. apply flat_map_app. Qed.
+Lemma group_txt v l : texts (events v (group_segs l)) = cols_texts v l.
 Proof.
   unfold group_segs. rewrite !silent_txt by sil. rewrite events_app, texts_app.
   replace (texts (events v [P [c "div"]; M [c "td"; c "tr"; c "table"]])) with (@nil bytes) by (destruct v; reflexivity).
-  rewrite app_nil_r. destruct cs as [|c1 rest]; [reflexivity|]. apply cols_txt.
+  rewrite app_nil_r. unfold group_inner. destruct (has_col l) eqn:H; [|now apply raws_only_txt].
+  rewrite events_app, texts_app, items_txt, (raws_only_txt v _ (split_trail_raws l)), <- cols_texts_app, split_trail_app. reflexivity.
 Qed.
 Lemma children_txt v s : texts (events v (children_segs s)) = sec_texts v s.
 Proof.
@@ -602,21 +732,21 @@ Proof.
   rewrite !silent_txt by sil. rewrite events_app, texts_app, sec_txt.
   replace (texts (events v [P [c "div"]; vml_close])) with (@nil bytes) by (destruct v; reflexivity). now rewrite app_nil_r.
 Qed.
-Lemma more_wrapped_txt v rest : texts (events v (more_wrapped rest)) = flat_map (fun s => sec_texts v (snd s)) rest.
+Lemma witems_txt v : forall l used, texts (events v (witems_segs used l)) = flat_map (witem_texts v) l.
 Proof.
-  induction rest as [|s rest IH]; [reflexivity|].
-  unfold more_wrapped. cbn [flat_map].
-  change (flat_map (fun s0 => M [c "td"; c "tr"; c "table"; c "td"; c "tr"; o "tr"; o "td"; o "table"; o "tr"; o "td"] :: sect_segs s0) rest) with (more_wrapped rest).
-  rewrite events_app, texts_app, silent_txt by sil. rewrite sect_txt, IH. reflexivity.
+  induction l as [|i r IH]; intros used; [destruct v; reflexivity|].
+  destruct i as [s|ts]; cbn [witems_segs flat_map witem_texts].
+  - rewrite !events_app, !texts_app, sect_txt.
+    replace (texts (events v (if used then [M (close5 ++ open5)] else []))) with (@nil bytes) by (destruct used, v; reflexivity).
+    cbn [app]. f_equal. apply IH.
+  - rewrite silent_txt by sil. rewrite raw_txt. f_equal. rewrite silent_txt by sil. apply IH.
 Qed.
-Lemma wrap_txt v ss : texts (events v (wrap_segs ss)) = flat_map (fun s => sec_texts v (snd s)) ss.
+Lemma wrap_txt v ss : texts (events v (wrap_segs ss)) = flat_map (witem_texts v) ss.
 Proof.
   unfold wrap_segs. rewrite silent_txt by sil. rewrite events_app, texts_app.
   replace (texts (events v [P [c "td"; c "tr"; c "tbody"; c "table"; c "div"]])) with (@nil bytes) by (destruct v; reflexivity).
   rewrite app_nil_r. destruct ss as [|s1 rest]; [destruct v; reflexivity|].
-  unfold wrap_inner. rewrite silent_txt by sil. rewrite !events_app, !texts_app, sect_txt, more_wrapped_txt.
-  replace (texts (events v [M [c "td"; c "tr"; c "table"; c "td"; c "tr"; c "table"]])) with (@nil bytes) by (destruct v; reflexivity).
-  now rewrite app_nil_r.
+  unfold wrap_inner. rewrite silent_txt by sil. apply witems_txt.
 Qed.
 Lemma fw_txt v s : texts (events v (fw_segs s)) = sec_texts v (snd s).
 Proof.
@@ -638,7 +768,7 @@ Lemma pend_txt v (pend : bool) : texts (events v (if pend then [close3] else [])
 Lemma blocks_txt v : forall bs pend, texts (events v (blocks_segs pend bs)) = body_texts v bs.
 Proof.
   induction bs as [|b r IH]; intros pend; [destruct pend, v; reflexivity|].
-  destruct b as [s|s|ss|ks]; cbn [blocks_segs body_texts flat_map block_texts].
+  destruct b as [s|s|ss|ks|ts]; cbn [blocks_segs body_texts flat_map block_texts].
   - rewrite silent_txt by apply open_silent. rewrite events_app, texts_app, sect_txt. f_equal.
     destruct r as [|b' r']; [destruct v; reflexivity|]. destruct (continues b' && negb (fst s)); [apply IH|].
     rewrite silent_txt by sil. apply IH.
@@ -646,6 +776,7 @@ Proof.
   - rewrite silent_txt by apply open_silent. rewrite events_app, texts_app, wrap_txt. f_equal.
     rewrite silent_txt by sil. apply IH.
   - rewrite !events_app, !texts_app, pend_txt, hero_txt. cbn [app]. f_equal. apply IH.
+  - rewrite events_app, texts_app, pend_txt. cbn [app]. rewrite raw_txt. f_equal. apply IH.
 Qed.
 
 (* Every document of the grammar: a standard client shows exactly the author's content of the text
@@ -669,7 +800,14 @@ Definition erase_tok (t : tok) : list tok :=
   | TMsoOpen _ => [TMsoOpen cond]
   | other => [other]
   end.
-Definition erase (ts : list tok) : list tok := flat_map erase_tok ts.
+(* adjacent pieces of character data are one piece to a reader (and to the lexer) *)
+Fixpoint merge_txt (ts : list tok) : list tok :=
+  match ts with
+  | TText a :: r => match merge_txt r with TText _ :: r' => TText a :: r' | r' => TText a :: r' end
+  | t :: r => t :: merge_txt r
+  | [] => []
+  end.
+Definition erase (ts : list tok) : list tok := merge_txt (flat_map erase_tok ts).
 
 Fixpoint drop_to_body (ts : list tok) : list tok :=
   match ts with
@@ -738,18 +876,19 @@ Fixpoint list_bytes_eqb (a b : list bytes) : bool :=
   match a, b with [], [] => true | x :: a', y :: b' => bytes_eqb x y && list_bytes_eqb a' b' | _, _ => false end.
 Definition texts_agree (v : view_kind) (b : body) (html : bytes) : bool :=
   match view_texts v (body_tokens (lex html)) with
-  | Some l => list_bytes_eqb (map norm_gen l) (body_texts v b)
+  | Some l => bytes_eqb (List.concat (map norm_gen l)) (List.concat (body_texts v b))     (* adjacent texts read as one *)
   | None => false
   end.
 Definition text_mismatches (cases : list (nat * body * bytes)) : list nat :=
   flat_map (fun x => match x with (i, b, h) => if texts_agree Std b h && texts_agree Mso b h then [] else [i] end) cases.
 
 Example emit_nonvacuous :
-  let b := [Plain (false, Cols [(false, [KText (lit "S1X"); KDivider]); (true, [KButtonLink (lit "S2X")])]);
-            Plain (true, Groups [[(false, [KImage]); (false, [])]; []]); FullWidth (false, Cols []); FullWidth (true, Cols [(true, [])]);
-            Wrap [(false, Cols [(false, [KSpacer])]); (true, Cols [(false, [KImageLink]); (false, [KButton (lit "S3X")])])];
-            Hero [KText (lit "S4X"); KButton (lit "S5X")]; Plain (false, Cols [(false, [KText (lit "S6X")])]); Wrap []] in
+  let r := [o "i"; tx (lit "S9X"); c "i"] in
+  let b := [Plain (false, Cols [RI r; CI (false, [KText (lit "S1X"); KDivider; KRaw r]); CI (true, [KButtonLink (lit "S2X")]); RI r]);
+            Raw r; Plain (true, Groups [[CI (false, [KImage]); RI r; CI (false, [])]; []]); FullWidth (false, Cols []); FullWidth (true, Cols [CI (true, [])]);
+            Wrap [WR r; WS (false, Cols [CI (false, [KSpacer])]); WS (true, Cols [CI (false, [KImageLink]); CI (false, [KButton (lit "S3X")])]); WR r];
+            Hero [KText (lit "S4X"); KButton (lit "S5X")]; Plain (false, Cols [CI (false, [KText (lit "S6X")])]); Wrap []; Plain (false, Cols [RI r])] in
   check_views (emit_body b) = true /\ no_vml_outside Closed (emit_body b) = true /\
-  view_texts Std (emit_body b) = Some [lit "S1X"; lit "S2X"; lit "~"; lit "S3X"; lit "S4X"; lit "S5X"; lit "S6X"] /\
-  view_texts Mso (emit_body b) = Some [lit "S1X"; lit "~"; lit "S2X"; lit "~"; lit "S3X"; lit "S4X"; lit "S5X"; lit "S6X"].
+  view_texts Std (emit_body b) = Some [lit "S9X"; lit "S1X"; lit "S9X"; lit "S2X"; lit "S9X"; lit "S9X"; lit "S9X"; lit "S9X"; lit "~"; lit "S3X"; lit "S9X"; lit "S4X"; lit "S5X"; lit "S6X"; lit "S9X"] /\
+  raw_toks [o "b"] = [] /\ raw_toks [TMsoEnd] = [].
 Proof. vm_compute. repeat split; reflexivity. Qed.
